@@ -94,6 +94,7 @@ def run_walk(env, kind, which, n, policy):
     K = env.kinds[kind]
     b = K.method({"p": "p_canonization", "n": "n_canonization", "npn": "npn_canonization"}[which])
     it = env.interp(max_steps=20000000)
+    it.call_hooks = (cmp_kernel_hook(env.facts),)
     it.cmp_policy = policy
     it.cmp_log = []
     st = State()
